@@ -94,7 +94,7 @@ def conforms (n : Net) : Event → Bool
   | .kick k c v => onChan n k c && onChan n v c
   | .quit u => u != n.me && AL.has n.users u
   | .nick u nw => AL.has n.users u && !AL.has n.users nw && nameOk nw
-  | .topic u c t => onChan n u c && textOk t && !t.isEmpty
+  | .topic u c t => onChan n u c && textOk t   -- an empty text clears the topic (`TOPIC #c :`)
   | .mode u c chs => onChan n u c && !chs.isEmpty && chs.all (changeOk n c) && keyRemovalLast chs
   | .answerMode c => onChan n n.me c
   | .answerWho c => onChan n n.me c
